@@ -27,16 +27,15 @@ def _entries(tier, seed, reduced):
 
     tab = E.entry_table("quick") + E.e2e_table("quick")
     if reduced:
-        seen = set()
-        out = []
-        for p in tab:
-            # one body per (entry, op, dir, fam, plan, interp, kind, r2c...) class, smallest layouts
+        # two bodies per (entry, op, dir, fam, plan, interp, kind, r2c...) class: the first (smallest, single-atom)
+        # AND the last (largest, several atoms) layout - work splits over atoms only exist in the latter
+        first, last = {}, {}
+        for idx, p in enumerate(tab):
             sig = tuple(sorted((k, str(v)) for k, v in p.items() if k not in ("layout", "n", "mol", "dims", "offset", "extra", "which", "i", "nt", "batch_first", "inplace")))
-            if sig in seen:
-                continue
-            seen.add(sig)
-            out.append(p)
-        tab = out
+            first.setdefault(sig, idx)
+            last[sig] = idx
+        keep = sorted(set(first.values()) | set(last.values()))
+        tab = [tab[i] for i in keep]
     return [dict(p, seed=seed) for p in tab]
 
 
